@@ -231,6 +231,11 @@ def resolve(model: RefDir, op):
             return None
         if dim_key(dim) in model.dims:
             expect = 'reject'
+            if ref_sym is None and r[8] % 2:
+                # also over base types without reference unit: whatever the
+                # library does with the symbol, the declaration is rejected
+                # and must leave nothing behind
+                ref_sym = f'r{n}'
         elif all_ref and ref_sym is None:
             expect = 'follow'       # generated symbol may collide
         else:
